@@ -796,10 +796,11 @@ class SymRange(object):
     """range() with a symbolic bound: iteration is unrolled under the
     interpreter's loop bound (unwinding assertion)"""
 
-    def __init__(self, interp, start, stop):
+    def __init__(self, interp, start, stop, step=1):
         self.interp = interp
         self.start = start
         self.stop = stop
+        self.step = step
 
     def sym_iter(self):
         i = self.start
@@ -809,7 +810,7 @@ class SymRange(object):
             if n > self.interp.loop_bound:
                 self.interp.bound_hit("range() with a symbolic bound needs more than %d iterations" % self.interp.loop_bound)
             yield i
-            i = i + 1
+            i = i + self.step
 
     def sym_len(self):
         d = V.binop("-", self.stop, self.start)
@@ -822,7 +823,9 @@ def m_range(interp, *args):
             return SymRange(interp, 0, args[0])
         if len(args) == 2:
             return SymRange(interp, args[0], args[1])
-        raise Unsupported("range() with a symbolic step")
+        if len(args) == 3 and type(args[2]) is int and args[2] > 0:
+            return SymRange(interp, args[0], args[1], args[2])
+        raise Unsupported("range() with a symbolic or non-positive step")
     return range(*args)
 
 
@@ -1017,6 +1020,21 @@ def install(interp):
     tm[range] = m_range
     m[zlib.compress] = zlib_compress
     m[zlib.decompress] = zlib_decompress
+    import itertools as _it
+
+    def m_islice(interp_, it, *a):
+        if not (isinstance(it, Sym) or any(isinstance(x, Sym) for x in a)):
+            return _it.islice(it, *a)
+        if len(a) != 1:
+            raise Unsupported("islice with start/step on symbolic operands")
+        n = a[0]
+        out = []
+        for i, x in enumerate(interp_.iterate(it)):
+            if not interp_.truth(V.compare("<", i, n)):
+                break
+            out.append(x)
+        return iter(out)
+    tm[_it.islice] = m_islice
     import inspect as _inspect
     m[_inspect.ismodule] = lambda interp, x: False if isinstance(x, Sym) else _inspect.ismodule(x)
     m[_inspect.isclass] = lambda interp, x: False if isinstance(x, Sym) else _inspect.isclass(x)
